@@ -67,7 +67,11 @@ func classify(err error) string {
 }
 
 func opts(sh *Shape, val bool) []serix.Option {
-	o := []serix.Option{serix.WithTypeSettings(toSerixTS(sh.RootTS))}
+	if sh.rootOpt == nil {
+		t := sh.toSerix(sh.RootTS)
+		sh.rootOpt = &t
+	}
+	o := []serix.Option{serix.WithTypeSettings(*sh.rootOpt)}
 	if val {
 		o = append(o, serix.WithValidation())
 	}
@@ -938,6 +942,146 @@ func (ru *run) directed(known *[]string) {
 				}
 			}
 			ru.addDec(tcR, false, in, doDecode(tcR.sh, sl.T, in, false, false))
+		}
+	}
+	// bounds matrix: minLen=2 / maxLen=3 on []byte, string, []uint16 and map[uint8]bool; lengths 1..4 (min-1, min, max,
+	// max+1); Encode with and without validation, each produced byte string decoded with and without validation. The
+	// encoder checks the bounds of strings and collections only under validation but those of []byte always, the decoder
+	// likewise: a value one side accepts in a mode must pass the other side in the same mode (round-trip oracle)
+	{
+		u8n := &Node{K: KInt, T: intTypes["u1"], W: 1}
+		bl := &Node{K: KBool, T: reflect.TypeOf(false)}
+		kinds := []*Node{
+			{K: KBytes, T: bytesType}, {K: KString, T: stringType},
+			{K: KSlice, Elem: u16, T: reflect.SliceOf(u16.T)},
+			{K: KMap, Key: u8n, Elem: bl, T: reflect.MapOf(u8n.T, bl.T)},
+		}
+		for _, bounds := range []ARules{{Min: 2, Max: 3}, {Min: 2}, {Max: 3}} {
+			for _, kn := range kinds {
+				b0 := bounds
+				node := *kn
+				tcB := mk(&node, TS{L: ip(0), Rules: &b0}, nil)
+				for l := 1; l <= 4; l++ {
+					v := reflect.New(node.T).Elem()
+					switch node.K {
+					case KBytes:
+						v.SetBytes(bytes.Repeat([]byte{7}, l))
+					case KString:
+						v.SetString(strings.Repeat("a", l))
+					case KSlice:
+						s := reflect.MakeSlice(node.T, l, l)
+						for i := 0; i < l; i++ {
+							s.Index(i).SetUint(uint64(i + 1))
+						}
+						v.Set(s)
+					case KMap:
+						m := reflect.MakeMap(node.T)
+						for i := 0; i < l; i++ {
+							m.SetMapIndex(reflect.ValueOf(uint8(i+1)), reflect.ValueOf(i%2 == 0))
+						}
+						v.Set(m)
+					}
+					vterm := toCoq(tcB.eff, v)
+					for _, val := range []bool{false, true} {
+						b, cls, msg := doEncode(tcB.sh, v, val)
+						ru.addEnc(tcB, val, vterm, b, cls)
+						if cls == "PANIC" {
+							ru.fail("encode-panic", tcB, "Encode panicked: "+msg, map[string]any{"value": vterm, "val": val})
+						}
+						if cls != "" {
+							continue
+						}
+						for _, dval := range []bool{false, true} {
+							d := doDecode(tcB.sh, node.T, b, dval, false)
+							ru.addDec(tcB, dval, b, d)
+							if dval == val && (d.cls != "" || d.n != len(b) || canonPrint(tcB.eff, d.ptr.Elem()) != canonPrint(tcB.eff, v)) {
+								ru.fail("bounds-roundtrip-decode-fails", tcB, "Decode rejects (or changes) what Encode produced in the same validation mode: "+d.cls+" "+d.msg,
+									map[string]any{"value": vterm, "val": val, "bytes": hex.EncodeToString(b), "bounds": fmt.Sprintf("%+v", b0)})
+							}
+						}
+					}
+				}
+			}
+		}
+	}
+	// shared settings objects and call histories on ONE API: one *ArrayRules shared by a slice type, a map type and an
+	// auto-sorted slice type; the answer to a call must not depend on the calls made before it (the model is a pure
+	// function of schema, mode and input). Oracle (C03's own): bytes the validating decoder accepted re-encode to
+	// themselves - also after other types were processed - and are accepted again.
+	for _, shared0 := range []ARules{{Max: 4}, {Min: 1, NoDup: true}, {Min: 1, Max: 5, Lex: true}} {
+		shared := shared0
+		u32 := &Node{K: KInt, T: intTypes["u4"], W: 4}
+		u8n := &Node{K: KInt, T: intTypes["u1"], W: 1}
+		bl := &Node{K: KBool, T: reflect.TypeOf(false)}
+		slN := &Node{K: KSlice, Elem: u16, T: reflect.SliceOf(u16.T)}
+		mpN := &Node{K: KMap, Key: u8n, Elem: bl, T: reflect.MapOf(u8n.T, bl.T)}
+		s2N := &Node{K: KSlice, Elem: u32, T: reflect.SliceOf(u32.T)}
+		sh := &Shape{Reg: map[reflect.Type]*TS{}, Ifaces: map[reflect.Type]*ifaceInfo{}, Feat: map[string]bool{}}
+		for _, e := range []struct {
+			n  *Node
+			ts *TS
+		}{{slN, &TS{L: ip(0), Rules: &shared}}, {mpN, &TS{L: ip(0), Rules: &shared}}, {s2N, &TS{L: ip(0), Rules: &shared, LexOrd: bp(true)}}} {
+			sh.Reg[e.n.T] = e.ts
+			sh.RegOrd = append(sh.RegOrd, e.n.T)
+		}
+		if err := sh.register(); err != nil {
+			vx.Die("directed registration (shared rules): %v", err)
+		}
+		on := func(n *Node) *tcase {
+			eff := sh.effective(n, TS{}, 0)
+			i := len(ru.defs)
+			tc := &tcase{sh: sh, eff: eff, name: fmt.Sprintf("D%d", i), idx: -1 - i, sch: eff.coq()}
+			ru.defs = append(ru.defs, fmt.Sprintf("Definition %s : schema := %s.", tc.name, tc.sch))
+			return tc
+		}
+		tcS, tcM, tcS2 := on(slN), on(mpN), on(s2N)
+		// one step: validating decode, then validating re-encode of the decoded value
+		accepted := map[string]bool{}
+		decStep := func(tc *tcase, t reflect.Type, in []byte, when string) {
+			d := doDecode(sh, t, in, true, false)
+			ru.addDec(tc, true, in, d)
+			key := tc.name + hex.EncodeToString(in)
+			if d.cls == "" {
+				b2, cls2, _ := doEncode(sh, d.ptr.Elem(), true)
+				ru.addEnc(tc, true, toCoq(tc.eff, d.ptr.Elem()), b2, cls2)
+				if cls2 != "" || !bytes.Equal(b2, in[:d.n]) {
+					ru.fail("history-noncanonical-accepted", tc, "validating Decode accepted bytes that do not re-encode to themselves ("+when+")", map[string]any{"in": hex.EncodeToString(in), "reencoded": clsOr(cls2, b2), "shared_rules": fmt.Sprintf("%+v", shared)})
+				}
+				accepted[key] = true
+			} else if accepted[key] {
+				ru.fail("history-dependent-decode", tc, "bytes accepted by an earlier validating Decode are rejected now ("+when+"): "+d.cls+" "+d.msg, map[string]any{"in": hex.EncodeToString(in), "shared_rules": fmt.Sprintf("%+v", shared)})
+			}
+		}
+		slIns := [][]byte{{2, 2, 0, 1, 0}, {2, 1, 0, 2, 0}, {2, 1, 0, 1, 0}, {1, 7, 0}, {0}}
+		mpIns := [][]byte{{2, 1, 1, 2, 0}, {1, 5, 1}, {0}}
+		s2Ins := [][]byte{{2, 1, 0, 0, 0, 2, 0, 0, 0}, {2, 2, 0, 0, 0, 1, 0, 0, 0}}
+		for round := 0; round < 2; round++ {
+			when := []string{"before any map / sorted-slice call", "after map and sorted-slice calls"}[round]
+			for _, in := range slIns {
+				decStep(tcS, slN.T, in, when)
+			}
+			if round == 1 {
+				break
+			}
+			for _, in := range mpIns {
+				decStep(tcM, mpN.T, in, "map")
+			}
+			mv := reflect.MakeMap(mpN.T)
+			mv.SetMapIndex(reflect.ValueOf(uint8(2)), reflect.ValueOf(true))
+			mv.SetMapIndex(reflect.ValueOf(uint8(1)), reflect.ValueOf(false))
+			mvp := reflect.New(mpN.T).Elem()
+			mvp.Set(mv)
+			for _, val := range []bool{false, true} {
+				b, cls, _ := doEncode(sh, mvp, val)
+				ru.addEnc(tcM, val, toCoq(tcM.eff, mvp), b, cls)
+			}
+			for _, in := range s2Ins {
+				decStep(tcS2, s2N.T, in, "sorted slice")
+			}
+		}
+		// the unvalidated paths afterwards as well
+		for _, in := range slIns {
+			ru.addDec(tcS, false, in, doDecode(sh, slN.T, in, false, false))
 		}
 	}
 	// D02d: []struct{} with an inflated count (uint16 prefix keeps it fast)
